@@ -174,6 +174,38 @@ func (x *Exec) specForm(name string, e *ast.CallExpr, st *State, sp *SpecCtx) (V
 			acc = Add(acc, Ite(in, ToReal(bt), RealLitF(0)))
 		}
 		return Value{T: floatT, Term: acc}, true
+	case "anyof", "allof":
+		// anyof(k, lo, hi, cap, body): bounded exists/forall expanded over the capacity (no quantifier)
+		if len(e.Args) != 5 {
+			x.errorf("%s(k, lo, hi, cap, body)", name)
+			return Value{Term: False}, true
+		}
+		id, _ := e.Args[0].(*ast.Ident)
+		lo, hi := num(1), num(2)
+		capv := num(3)
+		if id == nil || !capv.IsNum() {
+			x.errorf("%s: bad binder or non-literal capacity", name)
+			return Value{Term: False}, true
+		}
+		n := int(capv.Rat.Num().Int64())
+		var parts []*Term
+		for j := 0; j < n; j++ {
+			jt := IntLit(int64(j))
+			in := And(Le(lo, jt), Lt(jt, hi))
+			if in.IsFalse() {
+				continue
+			}
+			b := x.specArgBool(e.Args[4], st, sp.with(id.Name, Value{T: intT, Term: jt}))
+			if name == "anyof" {
+				parts = append(parts, And(in, b))
+			} else {
+				parts = append(parts, Implies(in, b))
+			}
+		}
+		if name == "anyof" {
+			return bv(Or(parts...))
+		}
+		return bv(And(parts...))
 	case "unchanged":
 		var cs []*Term
 		for _, a := range e.Args {
